@@ -28,6 +28,18 @@ Foo: with { bar: SingleInteger -> SingleInteger; baz: () -> String } == add {
 	baz(): String == "lx";
 }
 '''
+LIB2_SRC = b'''#include "axllib"
+Bar: with { quux: SingleInteger -> SingleInteger; name: () -> String } == add {
+	quux(n: SingleInteger): SingleInteger == 3*n+2;
+	name(): String == "ly";
+}
+'''
+CLIENT2 = b'''#include "axllib"
+#library L "liblxy.al"
+import from L;
+import from Foo, Bar, SingleInteger;
+print << bar 7 << " " << baz() << " " << quux 5 << " " << name() << newline;
+'''
 CLIENT = b'''#include "axllib"
 #library L "%s"
 import from L;
@@ -43,6 +55,9 @@ ROUTES = {
     "R3c": (["-Fc", "-Ffm"], "cl.as"),			# client importing from the .ao
     "R3i": (["-Ginterp"], "cl.as"),
     "R4": (["-Ginterp"], "cl2.as"),			# client importing through the archive
+    "R3q": (["-Q3", "-Fc", "-Ffm"], "cl.as"),		# optimising client: inliner reads FOAM from the .ao
+    "R6": (["-Ginterp"], "cl3.as"),			# client importing from two members of one archive
+    "R6q": (["-Q3", "-Fc"], "cl3.as"),
 }
 SUBST_VALUES = ("x01", "x80", "00", "ff")
 
@@ -123,7 +138,7 @@ def make_subjects(binfo, scratch, seed, tier):
         ao = r.files["lx.ao"]
         trace = [(int(e[2]), int(e[3])) for e in vsim.parse_log(r.log)["fs"] if e[0] == "W" and e[1] == "ao"]
         subjects.append({"kind": "ao", "file": "lx.ao", "data": ao, "aux": {"cl.as": CLIENT % b"lx.ao"},
-                         "routes": ["R3c", "R3i"], "regions": ao_regions(ao), "trace": trace, "prog": "lx.as", "source": LIB_SRC})
+                         "routes": ["R3c", "R3i", "R3q"], "regions": ao_regions(ao), "trace": trace, "prog": "lx.as", "source": LIB_SRC})
         d = scratch.new()
         os.makedirs(d)
         open(os.path.join(d, "lx.ao"), "wb").write(ao)
@@ -133,6 +148,25 @@ def make_subjects(binfo, scratch, seed, tier):
         regs = [(0, 8, "armagic"), (8, 68, "arhdr")] + [(lo + 68, hi + 68, "member." + nm) for lo, hi, nm in ao_regions(ao)]
         subjects.append({"kind": "al", "file": "liblx.al", "data": al, "aux": {"cl2.as": CLIENT % b"liblx.al"},
                          "routes": ["R4"], "regions": regs, "trace": [], "prog": "lx.as", "source": LIB_SRC})
+        # an archive with two members
+        r2 = write_world(binfo, scratch, "ly.as", LIB2_SRC)
+        if r2.rc == 0 and "ly.ao" in r2.files:
+            ao2 = r2.files["ly.ao"]
+            d = scratch.new()
+            os.makedirs(d)
+            open(os.path.join(d, "lx.ao"), "wb").write(ao)
+            open(os.path.join(d, "ly.ao"), "wb").write(ao2)
+            subprocess.run(["ar", "crD", "liblxy.al", "lx.ao", "ly.ao"], cwd=d, check=True)
+            al2 = open(os.path.join(d, "liblxy.al"), "rb").read()
+            vsim.cleanup_world(d)
+            m2 = 68 + len(ao) + (len(ao) & 1)		# second member header (ar pads members to even length)
+            regs2 = [(0, 8, "armagic"), (8, 68, "arhdr")] + \
+                    [(lo + 68, hi + 68, "member." + nm) for lo, hi, nm in ao_regions(ao)] + \
+                    [(m2, m2 + 60, "arhdr2")] + \
+                    [(lo + m2 + 60, hi + m2 + 60, "member." + nm) for lo, hi, nm in ao_regions(ao2)]
+            subjects.append({"kind": "al", "file": "liblxy.al", "data": al2, "aux": {"cl3.as": CLIENT2},
+                             "routes": ["R6", "R6q"], "regions": regs2, "trace": [], "prog": "lx.as+ly.as", "source": LIB_SRC,
+                             "hdr_ranges": [(0, 68 + 165), (m2, m2 + 60 + 165)]})
     return subjects, skipped
 
 
@@ -147,6 +181,9 @@ def gen_damages(rng, subj, tier):
     else:
         lens = set([0, 1, n - 1, n - 2, n // 2])
         hdr_end = 165 if subj["kind"] == "ao" else (68 + 165 if subj["kind"] == "al" else 64)
+        for lo, hi in subj.get("hdr_ranges", [])[1:]:
+            for L in rng.sample(list(range(lo, hi)), 24):
+                lens.add(L)
         if tier == "thorough":
             for L in range(0, min(n, hdr_end + 1)):
                 lens.add(L)
@@ -170,6 +207,8 @@ def gen_damages(rng, subj, tier):
     if subj["kind"] in ("ao", "al"):
         base = 68 if subj["kind"] == "al" else 0
         hdr = list(range(0, base + 165))
+        if subj.get("hdr_ranges"):
+            hdr = [o for lo, hi in subj["hdr_ranges"] for o in range(lo, hi)]
         for o in hdr:		# every header / section-table / archive-header byte, in every tier
             for v in (SUBST_VALUES if tier == "thorough" else (rng.choice(SUBST_VALUES),)):
                 offs[(o, v)] = 1
